@@ -75,7 +75,7 @@ def correspondence(ctx, n):
     agree = differ = skipped = 0
     balanced = False
     for case, line in zip(open(os.path.join(d, "cases.txt")), open(os.path.join(d, "model.txt"))):
-        if case.startswith("S"):
+        if case.strip() == "S":
             balanced = False
             continue
         if case.startswith("BALANCE") and case.rstrip().endswith(" 1"):
